@@ -6,50 +6,75 @@
    without a line feed.  `pr` is Python's str.isprintable on non-ASCII code points (a Unicode
    table): the theorems hold for EVERY such table.
    The model is the behaviour WITH fixes/C09-if-else-junction.patch, C09-assign-junction.patch
-   and C09-bad-escape.patch; the pinned behaviour is `*_pinned` and is refuted below. *)
+   and C09-bad-escape.patch; the pinned behaviour is `*_pinned` and is refuted below.
+   `nm` is Python's Unicode name table (unicodedata, used by \N{name}): the theorems hold for EVERY table. *)
 From Coq Require Import ZArith Bool String Ascii List.
-From JMCV Require Import Model.Lit Proofs.LitBase Proofs.LitJson Proofs.LitNbt Proofs.LitPy Proofs.LitCtx.
+From JMCV Require Import Model.Lit Model.LitFmtRead Proofs.LitBase Proofs.LitJson Proofs.LitNbt Proofs.LitPy Proofs.LitSpell
+  Proofs.LitFmt Proofs.LitFmtRead Proofs.LitFmtScalar Proofs.LitFmtStrict Proofs.LitCtx.
 Import ListNotations.
 Open Scope Z_scope.
 
 (* --- source text -> value ------------------------------------------------------------- *)
 (* Text with no backslash, no line feed and not the delimiting quote is its own value. *)
 Theorem C09_decode_plain :
-  forall q raw, forallb (plain_char q) raw = true -> decode q raw = Ok raw.
-Proof. exact (decode_plain Diag). Qed.
+  forall nm q raw, forallb (plain_char q) raw = true -> decode nm q raw = Ok raw.
+Proof. exact (fun nm => decode_plain nm Diag). Qed.
 Print Assumptions C09_decode_plain.
 
 (* Every value (any code points) has a spelling, and decoding inverts it. *)
 Theorem C09_decode_escaped :
-  forall q s, q = 34 \/ q = 39 -> decode q (py_quote q s) = Ok s.
-Proof. exact (decode_py_quote Diag). Qed.
+  forall nm q s, q = 34 \/ q = 39 -> decode nm q (py_quote q s) = Ok s.
+Proof. exact (fun nm => decode_py_quote nm Diag). Qed.
 Print Assumptions C09_decode_escaped.
+
+(* (round 4) EVERY spelling: a literal written item by item -- the character itself (any code point: Latin-1, BMP,
+   combining marks, astral), the one-letter escapes (backslash, both quotes, a b f n r t v), an escape Python does not know (kept with its backslash),
+   backslash-newline, \o \oo \ooo, \xhh \uhhhh \Uhhhhhhhh in either case, \N{name} -- in any order and mix decodes
+   to the concatenation of what the items denote, code point by code point.  (sp_all_ok: a raw item is not the quote,
+   a backslash or a line feed; hexadecimal values are at most 0x10FFFF; a short octal escape is not followed by an
+   octal digit; the name is in the table.) *)
+Theorem C09_decode_spelling :
+  forall nm q l, q = 34 \/ q = 39 -> sp_all_ok q nm l = true -> decode nm q (sp_src l) = Ok (sp_val nm l).
+Proof. exact (fun nm => decode_spelling nm Diag). Qed.
+Print Assumptions C09_decode_spelling.
+
+(* every code point sequence has a spelling, and two spellings of one value are interchangeable *)
+Theorem C09_spelling_exists :
+  forall nm q s, q = 34 \/ q = 39 -> exists l, sp_all_ok q nm l = true /\ sp_val nm l = s.
+Proof. exact spelling_exists. Qed.
+Print Assumptions C09_spelling_exists.
+
+Theorem C09_spellings_agree :
+  forall nm q l1 l2, q = 34 \/ q = 39 -> sp_all_ok q nm l1 = true -> sp_all_ok q nm l2 = true ->
+    sp_val nm l1 = sp_val nm l2 -> decode nm q (sp_src l1) = decode nm q (sp_src l2).
+Proof. exact decode_spellings_agree. Qed.
+Print Assumptions C09_spellings_agree.
 
 (* Backtick (multi-line) strings: white space, line feed, TEXT, line feed, white space -- any
    number of lines of text without backslash and backtick is taken as it is. *)
 Theorem C09_decode_backtick :
-  forall w1 mid w2,
+  forall nm w1 mid w2,
     forallb py_space w1 = true -> memz 10 w1 = false ->
     forallb py_space w2 = true -> memz 10 w2 = false ->
     forallb bt_plain_char mid = true ->
-    decode_bt (w1 ++ 10 :: mid ++ 10 :: w2) = Ok mid.
+    decode_bt nm (w1 ++ 10 :: mid ++ 10 :: w2) = Ok mid.
 Proof. exact decode_bt_plain. Qed.
 Print Assumptions C09_decode_backtick.
 
 (* pinned tree (re.match instead of a full match): text on the opening / closing line is
    silently dropped; with C09-backtick-edge-lines.patch it is refused *)
 Theorem C09_refuted_backtick :
-  exists raw, decode_bt_pinned raw = Ok (lit "world") /\ decode_bt raw = Diag.
+  forall nm, exists raw, decode_bt_pinned nm raw = Ok (lit "world") /\ decode_bt nm raw = Diag.
 Proof. exact decode_bt_pinned_drops_text. Qed.
 Print Assumptions C09_refuted_backtick.
 
 (* No literal makes a non-JMC exception escape (after C09-bad-escape.patch) ... *)
-Theorem C09_decode_no_crash : forall q raw, decode_any q raw <> Crash.
+Theorem C09_decode_no_crash : forall nm q raw, decode_any nm q raw <> Crash.
 Proof. exact decode_any_not_crash. Qed.
 Print Assumptions C09_decode_no_crash.
 
 (* ... which is false on the pinned tree: say "\x"; *)
-Theorem C09_refuted_escape : exists raw, decode_pinned 34 raw = Crash /\ decode 34 raw = Diag.
+Theorem C09_refuted_escape : forall nm, exists raw, decode_pinned nm 34 raw = Crash /\ decode nm 34 raw = Diag.
 Proof. exact decode_pinned_crashes. Qed.
 Print Assumptions C09_refuted_escape.
 
@@ -81,7 +106,7 @@ Print Assumptions C09_roundtrip_nbt_legacy_partial.
 
 Theorem C09_nbt_legacy_refuted :
   exists s, forallb cp_ok s = true /\ nbt_unquote_legacy (nbt_emit (fun _ => true) s) = None.
-Proof. exists [97; 9; 98]. split; reflexivity. Qed.
+Proof. exact nbt_legacy_refuted. Qed.
 Print Assumptions C09_nbt_legacy_refuted.
 
 Theorem C09_nbt_one_line :
@@ -100,6 +125,58 @@ Theorem C09_carrier_roundtrip :
   forall pr k s l, text_ok k s = true -> emit pr k s = Ok l -> read k l = Some s.
 Proof. exact read_emit. Qed.
 Print Assumptions C09_carrier_roundtrip.
+
+(* --- formatted text (Text.tellraw / title / subtitle / actionbar, printf, ...) -------------------------- *)
+(* (round 4) For every literal and every mix of `&x` codes, `&&` and `&<..>` brackets (colours, styles, selector
+   and score components): the text fields of the emitted components, in order, are exactly the text of the literal
+   without its codes -- no run of text, blank or not, at the start, between two codes, before a selector / score
+   component or at the end, is dropped, duplicated or reordered. *)
+Theorem C09_formatted_text_preserved :
+  forall strict var s cs, fmt_parse strict var s = Ok cs -> comp_texts cs = fmt_plain FNorm s.
+Proof. exact fmt_text_preserved. Qed.
+Print Assumptions C09_formatted_text_preserved.
+
+(* ... where a run without '&' stands for itself *)
+Theorem C09_formatted_run :
+  forall run rest, memz 38 run = false -> fmt_plain FNorm (run ++ rest) = run ++ fmt_plain FNorm rest.
+Proof. exact fmt_plain_norm_run. Qed.
+Print Assumptions C09_formatted_run.
+
+(* text without the formatting sign is emitted as one JSON string *)
+Theorem C09_formatted_plain :
+  forall strict var ni s, memz 38 s = false -> fmt_emit strict var ni s = Ok (json_emit s).
+Proof. exact fmt_emit_plain. Qed.
+Print Assumptions C09_formatted_plain.
+
+(* The component list rendered by FormattedText.__str__ (a bare string, one object, or a list that starts with ""),
+   read back token by token by the JSON reader jt_read (strings through the RFC 8259 reader; a string is displayed
+   when it is the value of the key "text" or stands on its own), displays the texts of the components in order. *)
+Theorem C09_formatted_render_read :
+  forall ni cs, forallb comp_scalar cs = true -> jt_read (fmt_render ni cs) = Some (comp_texts cs).
+Proof. exact render_read. Qed.
+Print Assumptions C09_formatted_render_read.
+
+(* End to end, for every literal of Unicode text and every objective name: the JSON text emitted for the formatted
+   literal displays exactly the literal's text without its codes. *)
+Theorem C09_formatted_displays :
+  forall strict var ni s j, forallb scalarb var = true -> forallb scalarb s = true ->
+    fmt_emit strict var ni s = Ok j -> jt_read j = Some (fmt_plain FNorm s).
+Proof. exact fmt_emit_displays. Qed.
+Print Assumptions C09_formatted_displays.
+
+(* ... and (with fixes/C09-unknown-format-code.patch) what `fmt_plain` takes out of the text are format codes only:
+   a literal in which `&` is followed by anything else is refused *)
+Theorem C09_formatted_strict :
+  forall var s cs, fmt_parse true var s = Ok cs -> fmt_codes_known FNorm s = true.
+Proof. exact parse_strict. Qed.
+Print Assumptions C09_formatted_strict.
+
+(* the tree before that patch: Text.tellraw(@a, "Tom & Jerry") is accepted and displays "Tom Jerry" *)
+Theorem C09_refuted_unknown_code :
+  exists s cs, fmt_parse false (lit "__variable__") s = Ok cs /\ fmt_codes_known FNorm s = false /\
+               comp_texts cs = lit "Tom Jerry" /\ s = lit "Tom & Jerry".
+Proof. exact parse_lenient_refuted. Qed.
+Print Assumptions C09_refuted_unknown_code.
 
 (* --- contexts --------------------------------------------------------------------------- *)
 (* For every stack of contexts (any nesting depth, outermost first), every carrier and every
@@ -128,9 +205,9 @@ Print Assumptions C09_chain_contexts.
 
 (* source text to output line, end to end *)
 Theorem C09_literal_reaches_output :
-  forall pr q raw k cs s line,
+  forall nm pr q raw k cs s line,
     forallb ctx_wf cs = true -> carrier_wf k = true -> text_ok k s = true ->
-    decode_any q raw = Ok s -> compile_lit pr q raw k cs = Ok line ->
+    decode_any nm q raw = Ok s -> compile_lit nm pr q raw k cs = Ok line ->
     exists l, emit pr k s = Ok l /\ line = ctx_prefix cs ++ l /\
               read k (skipn (length (ctx_prefix cs)) line) = Some s.
 Proof. exact literal_reaches_output. Qed.
@@ -169,6 +246,25 @@ Example C09_nonvacuous :
   let k := KJson (lit "tellraw @s {""text"":") (lit "}") in
   let s := [233; 128512; 34] ++ lit " run execute " in
   forallb ctx_wf cs = true /\ carrier_wf k = true /\ text_ok k s = true /\
-  compile_lit (fun _ => true) 34 (py_quote 34 s) k cs =
+  compile_lit (fun _ => None) (fun _ => true) 34 (py_quote 34 s) k cs =
   Ok (lit "execute if score __if_else__ __variable__ matches 0 as @a run tellraw @s {""text"":""\u00e9\ud83d\ude00\"" run execute ""}").
 Proof. vm_compute. repeat split. Qed.
+
+(* a spelling that mixes raw non-ASCII text (e-acute, U+1F600) with five escape forms: backslash-quote, \xeb, \u8868,
+   \N{BULLET} and octal \101 (the hypotheses of C09_decode_spelling hold; the literal decodes to the text the user meant) *)
+Example C09_spelling_nonvacuous :
+  let nm := fun n => if str_eqb n (lit "BULLET") then Some 8226 else None in
+  let l := [SpRaw 67; SpRaw 97; SpRaw 102; SpRaw 233; SpRaw 32; SpSimple 34; SpRaw 90; SpRaw 111; SpHex (lit "eb"); SpSimple 34;
+            SpRaw 32; SpHex (lit "8868"); SpName (lit "BULLET"); SpOct (lit "101"); SpRaw 128512] in
+  sp_all_ok 34 nm l = true /\
+  sp_src l = [67; 97; 102; 233; 32; 92; 34; 90; 111] ++ lit "\xeb\""" ++ [32] ++ lit "\u8868\N{BULLET}\101" ++ [128512] /\
+  decode nm 34 (sp_src l) = Ok [67; 97; 102; 233; 32; 34; 90; 111; 235; 34; 32; 34920; 8226; 65; 128512].
+Proof. vm_compute. repeat split. Qed.
+
+(* formatted text: a blank run before a selector component and one at the end are both displayed *)
+Example C09_formatted_nonvacuous :
+  fmt_emit true (lit "__variable__") false (lit "&c  &<@s>  ") =
+  Ok (lit "["""",{""text"":""  "",""color"":""red""},{""selector"":""@s"",""color"":""red""},{""text"":""  "",""color"":""red""}]") /\
+  jt_read (lit "["""",{""text"":""  "",""color"":""red""},{""selector"":""@s"",""color"":""red""},{""text"":""  "",""color"":""red""}]")
+  = Some (lit "    ").
+Proof. vm_compute. split; reflexivity. Qed.
